@@ -92,6 +92,14 @@ CLAIMED["C07"] = dict(cat="other", technique="sign-lattice abstract interpretati
         "the wake-loss sum is a numerical relation between run-time arrays and is NOT decided.",
    note="Assumes the passive-impedance precondition of the statement; exact real arithmetic (no rounding).",
    ref="DESIGN.md §3 C07")
+CLAIMED["C03"] = dict(cat="other", technique="symbolic differentiation and series expansion of the offset formulas folded from the AST; variable identity (same declaration) for the angle; grid lemmas",
+   text="Decides a necessary condition only: the linearised one-step kick-drift map fixed by the code. The RF offset (linear model, synchronous phase) has slope "
+        "-tan(a), the drift offset slope slip0*delta1/delta0, both offsets vanish at the zero bins of their own axes, the angle handed to the RF map and slip[0] "
+        "are the same const variable 2*pi/steps, both axes have the same cell size; hence the coupling product is -a^2+O(a^4): an elliptic map with fixed sense "
+        "and phase advance a+O(a^3), independent of where the grid is centred. Closure after one period, the size of the splitting error and the sinusoidal "
+        "model at finite amplitude are run-time behaviour and are NOT decided.",
+   note="Exact arithmetic; positive-constant assumptions for the sinusoidal sign check. DynamicRFKickMap is covered under C19.",
+   ref="DESIGN.md §3 C03")
 NOT_YET = "check not built yet in this round (static rule designed in DESIGN.md §3, not implemented)"
 NA = {}
 
